@@ -615,7 +615,7 @@
 		local.get $block_size
 		i32.add
 		global.get $__heap_top
-		i32.ge_s
+		i32.ge_u ;; 无符号比较: heap_ptr+block_size 可能超过 2^31
 		if
 			;; 只扩容不足的部分(堆顶以下剩余的空间仍然可用)
 			;; $pages = ($__heap_ptr + $block_size - $__heap_top + WASM_PAGE_SIZE) / WASM_PAGE_SIZE
@@ -627,7 +627,7 @@
 			i32.const 65536 ;; WASM_PAGE_SIZE
 			i32.add
 			i32.const 65536 ;; WASM_PAGE_SIZE
-			i32.div_s
+			i32.div_u
 			local.set $pages
 
 			;; if memory.grow(pages) < 0 { return nil }
